@@ -12,7 +12,9 @@ Record refines (h : change -> list change) : Prop := {
     exists tcs', y = ModifyTable t tcs' /\
       forall f, In f (flat_map tc_added tcs') -> In f (flat_map tc_added tcs);
   rf_rm : forall t tcs s, existsb (tc_removes s) tcs = true ->
-    exists tcs', In (ModifyTable t tcs') (h (ModifyTable t tcs)) /\ existsb (tc_removes s) tcs' = true
+    exists tcs', In (ModifyTable t tcs') (h (ModifyTable t tcs)) /\ existsb (tc_removes s) tcs' = true;
+  (* ... and drops each key as often as the original *)
+  rf_keys : forall t tcs, Permutation (flat_map rm_keys (h (ModifyTable t tcs))) (rm_keys (ModifyTable t tcs))
 }.
 
 Section Transfer.
@@ -46,6 +48,20 @@ Section Transfer.
 
   Lemma fm_drops l : flat_map drops (flat_map h l) = flat_map drops l.
   Proof. induction l as [|x l IH]; simpl; [reflexivity|]. rewrite flat_map_app, h_drops, IH. reflexivity. Qed.
+
+  Lemma h_keys x : Permutation (flat_map rm_keys (h x)) (rm_keys x).
+  Proof.
+    destruct x as [t fks|t fks|t tcs].
+    - rewrite (rf_add h Hh). apply Permutation_refl.
+    - rewrite (rf_drop h Hh). apply Permutation_refl.
+    - apply (rf_keys h Hh).
+  Qed.
+
+  Lemma fm_keys l : Permutation (flat_map rm_keys (flat_map h l)) (flat_map rm_keys l).
+  Proof.
+    induction l as [|x l IH]; simpl; [constructor|]. rewrite flat_map_app.
+    apply Permutation_app; [apply h_keys|exact IH].
+  Qed.
 
   Lemma h_added x y f : In y (h x) -> In f (added_fks y) -> In f (added_fks x).
   Proof.
@@ -115,6 +131,8 @@ Section Transfer.
         destruct (h_removes y0 _ _ Hrm) as [y1 [Hy1 Hr1]].
         exists y1. split; [|exact Hr1]. rewrite Ep. apply in_or_app. left. apply in_flat_map. exists y0. split; assumption.
       + destruct (rf_mod h Hh t0 tcs _ Hy) as [tcs' [Hd _]]. discriminate.
+    - apply (Permutation_NoDup (Permutation_sym (fm_keys l))). apply (so_rm_nodup l c H).
+    - intros k Hk. apply (Permutation_in _ (fm_keys l)) in Hk. apply (so_rm_live l c H k Hk).
   Qed.
 End Transfer.
 
@@ -150,6 +168,22 @@ Proof.
       exists g0. split.
       * simpl. apply in_or_app. left. fold g0. destruct g0; [destruct Hin|left; reflexivity].
       * apply existsb_exists. exists (DropFK from). split; [exact Hin|exact Hr].
+  - intros t tcs. simpl.
+    set (g0 := flat_map (fun c => match c with ModifyFK from _ => [DropFK from] | _ => [] end) tcs).
+    set (g1 := map (fun c => match c with ModifyFK _ to => AddFK to | c => c end) tcs).
+    assert (E0 : flat_map rm_keys (match g0 with [] => [] | _ :: _ => [ModifyTable t g0] end) =
+                 map (pair (t_name t)) (flat_map tc_rm g0)).
+    { destruct g0; [reflexivity|]. simpl. rewrite app_nil_r. reflexivity. }
+    assert (E1 : flat_map rm_keys (match g1 with [] => [] | _ :: _ => [ModifyTable t g1] end) =
+                 map (pair (t_name t)) (flat_map tc_rm g1)).
+    { destruct g1; [reflexivity|]. simpl. rewrite app_nil_r. reflexivity. }
+    rewrite flat_map_app, E0, E1, <- map_app. apply Permutation_map.
+    unfold g0, g1. clear. induction tcs as [|tc tcs IH]; simpl; [constructor|].
+    destruct tc as [f|f|from to|k]; simpl.
+    + exact IH.
+    + apply Permutation_sym. apply Permutation_cons_app. apply Permutation_sym. exact IH.
+    + constructor. exact IH.
+    + exact IH.
 Qed.
 
 Lemma pg_refines : refines pg_sources.
@@ -180,6 +214,16 @@ Proof.
     + apply existsb_exists. exists (DropFK g). split.
       * apply in_or_app. left. apply filter_In. split; [exact Hg|reflexivity].
       * simpl. apply Nat.eqb_eq. exact Hs.
+  - intros t tcs. simpl.
+    set (alter := flat_map (fun c => match c with ModifyFK from to => [DropFK from; AddFK to] | c => [c] end) tcs).
+    assert (Ea : Permutation (flat_map tc_rm alter) (flat_map tc_rm tcs)).
+    { unfold alter. clear. induction tcs as [|tc tcs IH]; simpl; [constructor|].
+      destruct tc as [f|f|from to|k]; simpl; try exact IH; constructor; exact IH. }
+    destruct alter as [|a al] eqn:E.
+    + simpl in *. apply Permutation_nil in Ea. rewrite Ea. constructor.
+    + rewrite <- E in *. simpl. rewrite app_nil_r. apply Permutation_map.
+      eapply perm_trans; [|exact Ea]. apply Permutation_flat_map.
+      eapply perm_trans; [apply Permutation_app_comm|]. apply (filter_perm is_dropfk alter).
 Qed.
 
 (** * Safety of what the dialect planners emit *)
